@@ -64,6 +64,11 @@ def run(ctx):
                render_path(f.path.events) if f.path else None)
     # R18.gate
     h_list = handler_for(model, "list")
+    from . import shared
+    shared.r_convert(ctx, "R18.convert", ["ws:onMessage"],
+                     "with listing allowed the list command fails for some stored names "
+                     "instead of advertising them; with listing disallowed it does not",
+                     handler=h_list)
     ngate = 0
     for en in model.runtime_entries():
         for p in model.paths(en):
